@@ -211,7 +211,8 @@ pub struct Entries {
     pub file_key: Vec<u8>,
 }
 
-fn padded(pw: &[u8]) -> Vec<u8> {
+/// "pad or truncate the password to exactly 32 bytes": two passwords with the same image are the same password
+pub fn padded(pw: &[u8]) -> Vec<u8> {
     let mut v: Vec<u8> = pw.iter().cloned().take(32).collect();
     let k = v.len();
     v.extend_from_slice(&PAD[..32 - k]);
